@@ -53,7 +53,7 @@ UnaryCore(ch) ==
      U("filter_map_async", "afm", 0, ch), U("compat", "", 0, ch)}
 
 BinaryOver(a, b) == {B(k, a, b) : k \in {"chain", "zip", "zip_longest", "cross_singleton"}}
-FutureOver(ch) == {U(k, "", 0, ch) : k \in {"collect", "for_each", "send_push", "send_sink", "next"}}
+FutureOver(ch) == {U(k, "", 0, ch) : k \in {"collect", "for_each", "send_push", "send_sink", "next"} \cup ACCS}
 
 (* Scripts: all sequences with at most l items (over VALS) and at most p Pendings *)
 Entries == {<<x>> : x \in VALS} \cup {PEND}
@@ -81,8 +81,17 @@ Cases ==
                s \in ScriptsLP(L, P)}
       [] GROUP = "flavour" ->
            {[tree |-> t, scripts |-> <<s>>] :
-               t \in UNION {UnaryCore(Leaf(1, fl)) \cup {Leaf(1, fl)} : fl \in {"stream", "poll_fn", "iter"}},
+               t \in UNION {UnaryCore(Leaf(1, fl)) \cup {Leaf(1, fl)} : fl \in {"stream", "poll_fn", "iter", "from_fn"}},
                s \in ScriptsLP(L, P)}
+           \* pull::once / pull::empty as (unobservable) upstreams
+           \cup {[tree |-> t, scripts |-> <<s>>] :
+                   t \in UnaryCore(Leaf(1, "once")) \cup {Leaf(1, "once")}, s \in {<< <<x>> >> : x \in VALS}}
+           \cup {[tree |-> t, scripts |-> << <<>> >>] : t \in UnaryCore(Leaf(1, "empty")) \cup {Leaf(1, "empty")}}
+           \cup {[tree |-> t, scripts |-> <<s1, s2>>] :
+                   t \in BinaryOver(Leaf(1, "once"), L2) \cup BinaryOver(L2, Leaf(1, "once")),
+                   s1 \in {<< <<x>> >> : x \in VALS}, s2 \in ScriptsLP(L, P)}
+           \cup {[tree |-> t, scripts |-> << <<>>, s2 >>] :
+                   t \in BinaryOver(Leaf(1, "empty"), L2) \cup BinaryOver(L2, Leaf(1, "empty")), s2 \in ScriptsLP(L, P)}
       [] GROUP = "nonfused" ->
            {[tree |-> t, scripts |-> <<s>>] : t \in UnaryCore(L1) \cup {L1}, s \in NonFusedScripts(L, P)}
            \cup {[tree |-> t, scripts |-> <<s1, s2>>] :
@@ -108,7 +117,8 @@ InitSt(nd) ==
     [v |-> CASE nd.k \in {"take", "skip"} -> <<nd.n>>
              [] nd.k = "skip_while" -> <<1>>              \* skipping = true
              [] nd.k \in {"enumerate", "fuse"} -> <<0>>   \* index / done
-             [] nd.k = "collect" -> << <<>> >>            \* the collection
+             [] nd.k = "src" /\ nd.f = "once" -> <<0>>    \* item taken
+             [] nd.k = "collect" \/ nd.k \in ACCS -> << <<>> >>    \* the collection / what went into the map
              [] OTHER -> <<>>,                            \* buffer / current / singleton_state = None
      cs |-> IF nd.c = <<>> THEN <<>> ELSE [i \in 1..Len(nd.c) |-> InitSt(nd.c[i])]]
 
@@ -123,7 +133,10 @@ PullN(nd, st, env) ==
         r == PullN(nd.c[1], st.cs[1], env)          \* pull of the (first) upstream
         st1 == [st EXCEPT !.cs[1] = r.st]
     IN
-    CASE k = "src" ->
+    CASE k = "src" /\ nd.f = "once" ->       \* once.rs: item.take(); no observable poll
+           IF st.v[1] = 0 THEN Ret(env.rem[nd.n][1], [st EXCEPT !.v = <<1>>], env) ELSE Ret(ENDV, st, env)
+      [] k = "src" /\ nd.f = "empty" -> Ret(ENDV, st, env)
+      [] k = "src" /\ nd.f \notin {"once", "empty"} ->
            LET s == nd.n
                a == IF env.rem[s] = <<>> THEN ENDV ELSE Head(env.rem[s])
            IN Ret(a, st, [rem |-> [env.rem EXCEPT ![s] = IF @ = <<>> THEN @ ELSE Tail(@)],
@@ -251,9 +264,9 @@ RootCall(nd, st, env) ==
              i |-> IF IsItem(r.a) THEN <<r.a>> ELSE <<>>, st |-> [st EXCEPT !.cs[1] = r.st], env |-> r.env]
     ELSE LET d == Drain(nd.c[1], st.cs[1], env, <<>>)
              done == d.a = ENDV
-         IN IF nd.k = "collect"      \* the collection is handed over at completion
+         IN IF nd.k = "collect" \/ nd.k \in ACCS     \* the collection / map is handed over at completion
             THEN [s |-> IF done THEN "E" ELSE "P",
-                  i |-> IF done THEN st.v[1] \o d.got ELSE <<>>,
+                  i |-> IF ~done THEN <<>> ELSE IF nd.k = "collect" THEN st.v[1] \o d.got ELSE AccOut(nd.k, st.v[1] \o d.got),
                   st |-> [v |-> <<st.v[1] \o d.got>>, cs |-> <<d.st>>], env |-> d.env]
             ELSE [s |-> IF done THEN "E" ELSE "P", i |-> d.got,
                   st |-> [st EXCEPT !.cs[1] = d.st], env |-> d.env]
@@ -272,7 +285,9 @@ HintN(nd, st, env) ==
     IN
     CASE k = "src" ->
            LET c == Len(Payloads(env.rem[nd.n]))
-           IN IF nd.f = "poll_fn" THEN <<0, -1>>
+           IN IF nd.f \in {"poll_fn", "from_fn"} THEN <<0, -1>>
+              ELSE IF nd.f = "once" THEN (IF st.v[1] = 0 THEN <<1, 1>> ELSE <<0, 0>>)
+              ELSE IF nd.f = "empty" THEN <<0, 0>>
               ELSE IF nd.n \in env.eos THEN <<0, 0>>
               ELSE CASE hm = 0 -> <<c, c>>
                      [] hm = 1 -> <<SatSub(c, 1), c + 1>>
